@@ -45,6 +45,8 @@ static std::vector<Body> bodies() {
         {"COMPDAT_q_new", "COMPDAT\n '?' 3 1 1 1 OPEN 1* 1* 0.25 /\n/\n"},
         {"COMPDAT_q_range", "COMPDAT\n '?' 3 2 1 3 OPEN 1* 1* 0.25 /\n/\n"},
         {"COMPDAT_P2_range_dirX", "COMPDAT\n 'P2' 1 3 2 3 OPEN 1* 1* 0.3 3* X /\n/\n"},
+        {"COMPDAT_P2_shut_all", "COMPDAT\n 'P2' 2 2 1 2 SHUT 1* 1* 0.2 /\n/\n", false, true},     // no affected_wells entry: only end_report() shuts the well
+        {"COMPDAT_q_shut_head", "COMPDAT\n '?' 0 0 1 3 SHUT 1* 1* 0.2 /\n/\n", false, true},
         {"COMPLUMP_P1", "COMPLUMP\n 'P1' 1 1 1 2 1 /\n/\n"},
         {"WPIMULT_q", "WPIMULT\n '?' 2.0 /\n/\n", true},
         {"WLIST", "WLIST\n '*L1' NEW P1 P2 /\n/\n"},
